@@ -63,7 +63,7 @@ def _check_chunk(jobs):
         try:
             if c["kind"] == "exp" and c.get("lunit", 3600) != 3600:      # lead times in hours, possibly fractional
                 c = dict(c, leads=[l * c["lunit"] / 3600.0 for l in c["leads"]], oleads=[l * c["lunit"] / 3600.0 for l in c["oleads"]])
-            if c["kind"] in ("acc", "exp"):
+            if c["kind"] in ("acc", "exp", "win"):
                 nloc = len(c["locs"])
                 inp = {"times": c["times"], "leads": c["leads"], "locs": c["locs"], "lat": [50 + k for k in range(nloc)],
                        "lon": [10 + k for k in range(nloc)], "elev": [100 * k for k in range(nloc)], "hasObs": True,
@@ -78,7 +78,19 @@ def _check_chunk(jobs):
                 mat.write_text(ipath, inp)
             meta_ok = lambda out: (arr_eq(inp["locs"], out["location"]) and arr_eq(inp["lat"], out["lat"]) and arr_eq(inp["lon"], out["lon"])
                                    and arr_eq(inp["elev"], out["altitude"]))
-            if c["kind"] == "acc":
+            if c["kind"] == "win":
+                argv = [ipath, opath, "-r", repr(float(num(c["thr"]))), "-b", c["bt"]]
+                run_script("window", argv)
+                n += 1
+                out = read_nc(opath)
+                lab = "window %s on obs=%r fcst=%r" % (" ".join(argv[2:]), c["obs"], c["fcst"])
+                if not arr_eq(c["eobs"], out["obs"]):
+                    bad("window:obs", "%s: expected obs windows %r observed %r" % (lab, [num(x) for x in c["eobs"]], np.asarray(out["obs"]).reshape(-1).tolist()))
+                if not arr_eq(c["efcst"], out["fcst"]):
+                    bad("window:fcst", "%s: expected fcst windows %r observed %r" % (lab, [num(x) for x in c["efcst"]], np.asarray(out["fcst"]).reshape(-1).tolist()))
+                if not (arr_eq(inp["times"], out["time"]) and arr_eq(inp["leads"], out["leadtime"]) and meta_ok(out)):
+                    bad("window:metadata", "%s: times, lead times or location metadata not preserved" % lab)
+            elif c["kind"] == "acc":
                 argv = [ipath, opath] + (["-w", str(c["w"])] if c["w"] > 0 else []) + (["-i"] if c["ignore"] else []) + ["-x", c["axis"]]
                 try:
                     run_script("accumulate", argv)
@@ -169,10 +181,10 @@ def _check_chunk(jobs):
 def run(ctx):
     ctx.rule = ("case = (input series with missing values, script options): accumulate x window 0..5 x axis x -i; ens2prob x ensembles of 1-3 "
                 "members with missing members x observation below/at/between/above/missing; expandverif x time subsets x init hours x "
-                "lead-time lists; non-trivial = input has a missing value or the window is incomplete somewhere")
+                "lead-time lists; window x series of 0/1/2/missing amounts x 4 bin types x 3 thresholds; non-trivial = input has a missing value or the window is incomplete somewhere")
     ctx.assumptions = ["observations reported for the same valid time agree (expandverif)",
                        "ens2prob cdf and quantiles are held to envelopes (strictness and interpolation are not documented)"]
-    for kind in ("acc", "ens", "exp"):
+    for kind in ("acc", "ens", "exp", "win"):
         res = tlc.run("MC_Scripts", "MC_Scripts_" + kind, tag=ctx.pid + "_" + kind, timeout_s=900)
         ctx.add_tlc("MC_Scripts/" + kind, res, {"Kind": kind})
         cases = res.emitted
